@@ -22,6 +22,7 @@ type Spec struct {
 	Finally  bool   `json:"finally"`
 	HandlerFails string `json:"handler_fails,omitempty"` // success | fail | finally
 	Bound    int    `json:"bound"`
+	Split    bool   `json:"split,omitempty"` // large program: its schedule tree is divided among all workers
 }
 
 func (s Spec) name() string {
@@ -44,7 +45,7 @@ func (s Spec) name() string {
 
 func (s Spec) bodyFails() bool {
 	switch s.Body {
-	case "fail1", "fail2", "append", "nest-fail", "nest-retfail", "spawn-fail":
+	case "fail1", "fail2", "append", "nest-fail", "nest-retfail", "spawn-fail", "broken-quote", "unknown-cmd":
 		return true
 	}
 	return false
@@ -68,6 +69,11 @@ func script(s Spec) string {
 		body = []string{"probe --id=body.c1", `pip:run --name=inner --sandbox=retfail:nested.sb --body=\"probe --id=never.c1\"`, "probe --id=body.c2"}
 	case "nest-retok":
 		body = []string{"probe --id=body.c1", `pip:run --name=inner --sandbox=retok:nested.sb --body=\"probe --id=never.c1\"`, "probe --id=body.c2"}
+	case "broken-quote":
+		// the body's script breaks off inside a quoted argument: it cannot be read to its end
+		body = []string{"probe --id=body.c1", `probe --id=body.c2 \"never closed`}
+	case "unknown-cmd":
+		body = []string{"probe --id=body.c1", "no-such-command-at-all"}
 	case "spawn-fail":
 		// one command starts two concurrent tasks: a slow one that succeeds and one that fails
 		body = []string{"probe --id=body.c1 --spawn=fail"}
@@ -205,7 +211,7 @@ func programs(thorough bool) []Spec {
 		b = 1
 	}
 	var ps []Spec
-	for _, body := range []string{"ok", "fail1", "fail2", "append", "nest-ok", "nest-fail", "nest-retfail", "nest-retok", "spawn-fail", "spawn-ok"} {
+	for _, body := range []string{"ok", "fail1", "fail2", "append", "nest-ok", "nest-fail", "nest-retfail", "nest-retok", "spawn-fail", "spawn-ok", "broken-quote", "unknown-cmd"} {
 		for mask := 0; mask < 8; mask++ {
 			s := Spec{Body: body, Success: mask&1 != 0, Fail: mask&2 != 0, Finally: mask&4 != 0, Bound: b}
 			if strings.HasPrefix(body, "nest") {
@@ -214,11 +220,17 @@ func programs(thorough bool) []Spec {
 					continue
 				}
 			}
+			if body == "broken-quote" || body == "unknown-cmd" {
+				if mask != 7 && mask != 3 && !thorough {
+					continue
+				}
+			}
 			if strings.HasPrefix(body, "spawn") {
 				// three concurrent threads (two spawned tasks and the closing scope): free switches only,
-				// no handler / the fail handler (all handlers: spawn-ok; finally only: thorough)
+				// no handler / the fail handler (thorough: all handlers for spawn-ok, finally only)
 				s.Bound = 0
-				if mask != 0 && mask != 2 && !(mask == 7 && body == "spawn-ok") && !(mask == 4 && thorough) {
+				s.Split = true
+				if mask != 0 && mask != 2 && !(mask == 7 && body == "spawn-ok" && thorough) && !(mask == 4 && thorough) {
 					continue
 				}
 			}
@@ -256,7 +268,7 @@ func mkProgram(sp Spec) *explore.Program {
 			Hit:    func() bool { return o.w != nil && len(o.w.EventsOf(want+".")) > 0 }})
 	}
 	return &explore.Program{Prop: "C16", Name: sp.name(), Spec: sp, Reach: reach,
-		Opt:  explore.Options{Bound: sp.Bound, Focus: focus, MaxSteps: 30000, HBR: true, HBRAuxNeutral: true, NoShard: true, SelectCost: -1},
+		Opt:  explore.Options{Bound: sp.Bound, Focus: focus, MaxSteps: 30000, HBR: true, HBRAuxNeutral: true, NoShard: !sp.Split, SelectCost: -1},
 		Body: build(sp, o), Judge: judge(sp, o),
 		Outcome: func() string {
 			if o.w == nil {
@@ -272,7 +284,7 @@ func run(c *fw.Ctx) {
 	c.R.Info["programs_total"] = len(ps)
 	c.R.Info["focus"] = focus
 	for i, sp := range ps {
-		if !c.Mine(i) {
+		if !sp.Split && !c.Mine(i) {
 			continue
 		}
 		if c.Expired() {
@@ -305,7 +317,7 @@ func replay(wj json.RawMessage) (*fw.Violation, error) {
 
 func init() {
 	fw.Register(&fw.Check{ID: "C16", Level: "model_checking",
-		Rule: "programs = body {succeeds, fails at command 1 / 2, appends an error, spawns a nested task that succeeds / fails, in the self sandbox or in a sandbox that reports failure only through its return value, or two concurrent tasks one of which fails} x every subset of {success, fail, finally} handlers x one failing handler; the script `pip:try ...` followed by another command is fed to the real terminal loop of a mock application bootstrapped per execution, probe commands log begin/end; every schedule within the bound (quick: free context switches at blocking points; thorough: 1 preemption, nested bodies free switches only) with a happens-before state cache; oracle: which handlers ran, handler begin after the end of the body and of every task it spawned, error state of the surrounding scope, the script continuing after the block, no panic, no deadlock; for programs with a failing handler additionally reachability over the explored schedule set: some schedule runs the finally handler (resp. the matching handler when finally is the failing one). states = distinct schedule traces",
+		Rule: "programs = body {succeeds, fails at command 1 / 2, appends an error, names an unknown command, breaks off inside a quoted argument, spawns a nested task that succeeds / fails, in the self sandbox or in a sandbox that reports failure only through its return value, or two concurrent tasks one of which fails} x every subset of {success, fail, finally} handlers x one failing handler; the script `pip:try ...` followed by another command is fed to the real terminal loop of a mock application bootstrapped per execution, probe commands log begin/end; every schedule within the bound (quick: free context switches at blocking points; thorough: 1 preemption, nested bodies free switches only) with a happens-before state cache; oracle: which handlers ran, handler begin after the end of the body and of every task it spawned, error state of the surrounding scope, the script continuing after the block, no panic, no deadlock; for programs with a failing handler additionally reachability over the explored schedule set: some schedule runs the finally handler (resp. the matching handler when finally is the failing one). states = distinct schedule traces",
 		Run: run, Replay: replay,
 		Assumptions: []string{"the finally handler is submitted first; when it fails the remaining handlers are not started (the handler failure is what is reported)", "accesses to objects outside the focus packages do not order executions in the happens-before cache (declared reduction)"}})
 }
